@@ -266,7 +266,7 @@ STALL_MARK = "\n   why: stalled: the process stayed alive for %d s without consu
 # enumerator of C19, restricted to this property's operations).  A result that is wrong only when two threads use a function for the first
 # time at once, or only after an allocation failed, is still a wrong result of that function.
 AUX = {
-    "auxC20": {"pid": "C20", "tsan": True, "enum": False, "rc_cases": {"quick": 50, "thorough": 400}, "rc_procs": {"quick": 4, "thorough": 8}},
+    "auxC20": {"pid": "C20", "tsan": True, "enum": True, "enum_shards": {"quick": 4, "thorough": 8}, "rc_cases": {"quick": 50, "thorough": 400}, "rc_procs": {"quick": 4, "thorough": 8}},
     "auxC19": {"pid": "C19", "tsan": False, "enum": True, "enum_shards": {"quick": 4, "thorough": 8}, "rc_cases": {"quick": 0, "thorough": 0}, "rc_procs": {"quick": 0, "thorough": 0}},
 }
 
@@ -570,7 +570,10 @@ def check(pid, tier):
             # thread programs: whether a saved case shows its failure again depends on the schedule, so it is replayed 12 times (each replay
             # repeats the case 4 times in one process) and counts when the failure is seen again at least once - the original observation
             # plus an independent second one; a sanitizer report or digest mismatch never occurs by chance on a tree without the defect
-            ok, text = replay_verdict(bins[v]["prop"], path, times=12, need=1, extra_env=venv(v))
+            for _batch in range(4):      # up to 4 batches of 12 fresh processes: a first-use window of a few hundred nanoseconds is hit by a few percent of them
+                ok, text = replay_verdict(bins[v]["prop"], path, times=12, need=1, extra_env=venv(v))
+                if ok:
+                    break
         else:
             ok, text = replay_verdict(bins[v]["prop"], path, extra_env=venv(v))
         if ok:
@@ -581,7 +584,7 @@ def check(pid, tier):
                 continue
             sigs.add(sig)
         if not ok:
-            notes.append("candidate from %s did not reproduce under replay (%s); not reported" % (how, "0 of 12" if (spec.get("tsan") or (v in AUX and AUX[v]["tsan"])) else "3 of 3 required"))
+            notes.append("candidate from %s did not reproduce under replay (%s); not reported" % (how, "0 of 48" if (spec.get("tsan") or (v in AUX and AUX[v]["tsan"])) else "3 of 3 required"))
             continue
         k = match_known(pid, text)
         if k:
